@@ -130,6 +130,12 @@ def program_for(group):
                 lines.append("\tprint!(s%d);" % i)
             else:
                 lines.append('\tprint!(|s%d|, ":", s%d);' % (i, i))
+                # the literal as a direct argument of the formatting builtins: alone (emitted verbatim), between other
+                # arguments (embedded in the format string, or passed as `%.*s` when it is not snprintf-safe), in format!
+                lines.append('\tprint!("\\n--\\n");')
+                lines += ["\tprint!(", c[1], "\t);", '\tprint!("\\n--\\n");']
+                lines += ["\tprint!(7i32,", c[1], "\t, 8i32);", '\tprint!("\\n--\\n");']
+                lines += ["\tvar f%d = format!(" % i, c[1], "\t);", '\tprint!(|f%d|, ":", f%d);' % (i, i)]
             lines.append('\tprint!("\\n--\\n");')
     lines.append("}")
     return "\n".join(lines) + "\n"
@@ -235,7 +241,12 @@ def main():
                     exp_lines.append((i, bs))
                 else:
                     # print! stops at a NUL byte (it formats strings C-style); the length is exact
-                    exp_lines.append((i, str(len(bs)).encode() + b":" + bs.split(b"\0")[0]))
+                    bs0 = bs.split(b"\0")[0]
+                    exp_lines.append((i, str(len(bs)).encode() + b":" + bs0))
+                    exp_lines.append((i, bs0))
+                    exp_lines.append((i, b"7" + bs0 + b"8"))
+                    # format! of a literal with a NUL goes through snprintf: C-style, like print!
+                    exp_lines.append((i, str(len(bs) if b"\0" not in bs else len(bs0)).encode() + b":" + bs0))
         if hh == "ok" and exp_lines:
             out = bytes.fromhex(hd.get("stdout", "h:")[2:])
             if hd.get("status") not in ("0",):
